@@ -100,15 +100,18 @@ func verifExpand(i int, e planEntry) []occupant {
 }
 
 type planVerdict struct {
-	sameKind bool // two file-likes, or two explicit dirs, on one path (no tree involved)
-	fileDir  bool // a file-like and a directory (explicit or implied) on one path (no tree involved)
-	tree     bool // a collision in which a tree-expanded occupant takes part
+	sameKind  bool // two file-likes, or two explicit dirs, on one path (no tree involved)
+	fileDir   bool // a file-like and a directory (explicit or implied) on one path (no tree involved)
+	treeRoot  bool // the root directory of a tree and a declared directory on one path (either order)
+	treeOver  bool // a tree expanded over what an EARLIER entry placed (addTree does not look)
+	treeUnder bool // a LATER entry lands on what a tree placed, same kind on the same path
+	treeOther bool // a later entry vs a tree occupant, file-like against directory on one path
 }
 
 func isFileKind(k int) bool { return k == occFile || k == occTreeFile }
 func isTreeKind(k int) bool { return k == occTreeFile || k == occTreeDir }
 
-func verifOracle(occ []occupant) planVerdict {
+func verifOracle(occ []occupant, plan []planEntry) planVerdict {
 	var r planVerdict
 	for i := 0; i < len(occ); i++ {
 		for j := i + 1; j < len(occ); j++ {
@@ -116,32 +119,41 @@ func verifOracle(occ []occupant) planVerdict {
 			if a.entry == b.entry && isTreeKind(a.kind) {
 				continue // a tree never collides with itself
 			}
-			tree := isTreeKind(a.kind) || isTreeKind(b.kind)
-			if verifSamePath(a.path, b.path) {
-				af, bf := isFileKind(a.kind), isFileKind(b.kind)
-				switch {
-				case af && bf, !af && !bf:
-					if tree {
-						r.tree = true
-					} else {
-						r.sameKind = true
-					}
-				default:
-					if tree {
-						r.tree = true
-					} else {
-						r.fileDir = true
-					}
-				}
+			same := verifSamePath(a.path, b.path)
+			af, bf := isFileKind(a.kind), isFileKind(b.kind)
+			beneath := !same && (af && verifIsAncestor(a.path, b.path) || bf && verifIsAncestor(b.path, a.path))
+			if !same && !beneath {
 				continue
 			}
-			// an entry beneath a non-directory
-			if isFileKind(a.kind) && verifIsAncestor(a.path, b.path) || isFileKind(b.kind) && verifIsAncestor(b.path, a.path) {
-				if tree {
-					r.tree = true
+			at, bt := isTreeKind(a.kind), isTreeKind(b.kind)
+			if !at && !bt {
+				if same && af == bf {
+					r.sameKind = true
 				} else {
 					r.fileDir = true
 				}
+				continue
+			}
+			// a tree takes part; which entry comes first in the list?
+			tree, other := a, b
+			if !at {
+				tree, other = b, a
+			}
+			if at && bt {
+				// two trees: the later one overwrites
+				r.treeOver = true
+				continue
+			}
+			rootOfTree := tree.path == plan[tree.entry].canon
+			switch {
+			case same && rootOfTree && other.kind == occDir:
+				r.treeRoot = true
+			case tree.entry > other.entry:
+				r.treeOver = true
+			case same && isFileKind(tree.kind) == isFileKind(other.kind):
+				r.treeUnder = true
+			default:
+				r.treeOther = true
 			}
 		}
 	}
@@ -355,7 +367,7 @@ func verifPlanOpt(k, ntypes int, small bool) {
 			occ = append(occ, verifExpand(i, e)...)
 		}
 	}
-	verdict := verifOracle(occ)
+	verdict := verifOracle(occ, plan)
 	collision := err != nil && errors.Is(err, ErrContentCollision)
 	if err != nil {
 		v.Assert(collision, "only-collision-errors-on-valid-input")
@@ -363,10 +375,16 @@ func verifPlanOpt(k, ntypes int, small bool) {
 	switch {
 	case verdict.sameKind:
 		v.Assert(collision, "collision-two-entries-one-destination")
+	case verdict.treeRoot:
+		v.Assert(collision, "collision-tree-root-on-a-declared-directory")
+	case verdict.treeUnder:
+		v.Assert(collision, "collision-later-entry-on-a-tree-entry")
 	case verdict.fileDir:
 		v.Assert(collision, "collision-file-and-directory-on-one-path")
-	case verdict.tree:
-		v.Assert(collision, "collision-involving-tree-expansion")
+	case verdict.treeOther:
+		v.Assert(collision, "collision-file-and-directory-on-one-path-in-a-tree")
+	case verdict.treeOver:
+		v.Assert(collision, "collision-tree-expanded-over-earlier-entry")
 	default:
 		v.Assert(err == nil, "no-false-collision")
 		if err == nil {
@@ -389,10 +407,11 @@ func Verif_C05_K4_Plan3_Thorough() { verifPlanOpt(3, 5, true) }
 // not, and the whole plan) is the same for every iteration order of the Go
 // maps it ranges over (glob results, the content map).
 func Verif_C05_K4_OrderIndependence() {
+	verifSmallPlan = true
 	srcs := verifPlanFS()
 	var raw1, raw2 Contents
 	for i := 0; i < 2; i++ {
-		e, c := verifPlanEntry([]string{"e0", "e1"}[i], 5, srcs)
+		e, c := verifPlanEntry([]string{"e0", "e1"}[i], 4, srcs)
 		_ = e
 		raw1 = append(raw1, c)
 		cp := *c
